@@ -296,6 +296,17 @@ class CFG(object):
                 t = None
             if t in assumed:
                 return assumed[t]
+        if assumed and isinstance(e, ast.Compare) and len(e.ops) == 1 and isinstance(e.ops[0], (ast.Is, ast.IsNot)) and \
+                isinstance(e.comparators[0], ast.Constant) and e.comparators[0].value is None:
+            # `X is None` is decided by an assumption about `X is not None` (and the other way round)
+            try:
+                lt = ast.unparse(e.left)
+            except Exception:
+                lt = None
+            if lt is not None:
+                other = '%s is not None' % lt if isinstance(e.ops[0], ast.Is) else '%s is None' % lt
+                if other in assumed:
+                    return not assumed[other]
         if isinstance(e, ast.Name):
             return env.get(e.id)
         if isinstance(e, ast.Constant):
@@ -303,6 +314,18 @@ class CFG(object):
         if isinstance(e, ast.UnaryOp) and isinstance(e.op, ast.Not):
             v = CFG._truth(e.operand, env, assumed)
             return None if v is None else (not v)
+        if isinstance(e, ast.Call) and isinstance(e.func, ast.Name) and e.func.id in ('any', 'all') and len(e.args) == 1 and not e.keywords:
+            # any([a, b, c]) / all((a, b)): the disjunction / conjunction of the elements (also through a local list, see _seqs)
+            seq = CFG._elements(e.args[0], env)
+            if seq is not None:
+                vals = [CFG._truth(v, env, assumed) for v in seq]
+                if e.func.id == 'any':
+                    if any(v is True for v in vals):
+                        return True
+                    return False if all(v is False for v in vals) else None
+                if any(v is False for v in vals):
+                    return False
+                return True if all(v is True for v in vals) else None
         if isinstance(e, ast.BoolOp):
             vals = [CFG._truth(v, env, assumed) for v in e.values]
             if isinstance(e.op, ast.And):
@@ -321,8 +344,28 @@ class CFG(object):
         return None
 
     @staticmethod
+    def _elements(e, env):
+        """The element expressions of a list / tuple display, or of a local that was bound to one (kept in env under ('seq', name))."""
+        if isinstance(e, (ast.List, ast.Tuple)) and not any(isinstance(x, ast.Starred) for x in e.elts):
+            return list(e.elts)
+        if isinstance(e, ast.Name):
+            return env.get(('seq', e.id))
+        return None
+
+    @staticmethod
     def _assume(e, value, env, assumed):
         """Refine ``env`` (in place) with the knowledge that the test evaluated to ``value``."""
+        if isinstance(e, ast.Call) and isinstance(e.func, ast.Name) and e.func.id in ('any', 'all') and len(e.args) == 1 and not e.keywords:
+            seq = CFG._elements(e.args[0], env)
+            if seq is not None:
+                if e.func.id == 'any' and value is False or e.func.id == 'all' and value is True:
+                    for v in seq:
+                        CFG._assume(v, value, env, assumed)
+                else:
+                    und = [v for v in seq if CFG._truth(v, env, assumed) is None]
+                    if len(und) == 1:
+                        CFG._assume(und[0], value, env, assumed)
+            return
         if isinstance(e, ast.Name):
             env[e.id] = value
             if value:
@@ -347,6 +390,11 @@ class CFG(object):
         for nm in names:
             env.pop(nm, None)
             env.pop('%s is None' % nm, None)
+            env.pop(('seq', nm), None)
+            # a list of flags that names the re-bound local no longer says what it said
+            for k in [k for k, v in env.items() if isinstance(k, tuple) and k[0] == 'seq' and
+                      any(isinstance(x, ast.Name) and x.id == nm for el in v for x in ast.walk(el))]:
+                env.pop(k, None)
 
     def _transfer(self, n, env, exceptional):
         """Effect of the node's own statement on the tracked locals."""
@@ -355,6 +403,7 @@ class CFG(object):
         if st is None:
             return
         if kind == 'stmt':
+            before = dict(env)
             if isinstance(st, ast.Assign):
                 for t in st.targets:
                     if isinstance(t, ast.Name):
@@ -370,10 +419,19 @@ class CFG(object):
                             env['%s is None' % t.id] = False
                             if isinstance(v, (ast.List, ast.Tuple, ast.Dict, ast.Set)):
                                 env[t.id] = bool(v.elts if not isinstance(v, ast.Dict) else v.keys)
+                            if isinstance(v, (ast.List, ast.Tuple)) and v.elts and all(isinstance(x, ast.Name) for x in v.elts):
+                                env[('seq', t.id)] = tuple(v.elts)
                         elif isinstance(v, ast.Name) and not exceptional:
                             for k in (v.id, '%s is None' % v.id):
                                 if k in env:
                                     env[k.replace(v.id, t.id, 1)] = env[k]
+                        elif isinstance(v, (ast.BoolOp, ast.UnaryOp)) and not exceptional:
+                            # `changed = found or changed`: decided when the operands are (the old value of the target was
+                            # read before it was killed: evaluate against the environment before this statement)
+                            tv = CFG._truth(v, before, None)
+                            if tv is not None and all(isinstance(x, (ast.Name, ast.BoolOp, ast.UnaryOp, ast.And, ast.Or, ast.Not, ast.Load, ast.Constant))
+                                                      for x in ast.walk(v)):
+                                env[t.id] = tv
                     else:
                         self._kill(env, [x.id for x in ast.walk(t) if isinstance(x, ast.Name) and isinstance(x.ctx, ast.Store)])
             elif isinstance(st, (ast.AugAssign, ast.AnnAssign)):
